@@ -303,7 +303,7 @@ Definition inv (u : key -> bool) (st : bool * bool) (s : state) : Prop :=
 
 Lemma inv_step u st s e : inv u st s -> inv u (sync_step u st e) (step u true s e).
 Proof.
-  intros (N & W & I & X). destruct e as [k v d|k d|oa od|oc oa od|items]; simpl.
+  intros (N & W & I & X). destruct e as [k v d|k d|oa od|oc oa od|items|]; simpl.
   - (* Put *)
     set (s1 := mkS (kset k v (etcd s)) (S (rev s)) (cvals s) (subs s) (nwatch s)).
     assert (N1 : NoDup (map fst (etcd s1))) by (apply nodup_set; assumption).
@@ -401,6 +401,7 @@ Proof.
       exists m'. split; [assumption|]. split.
       * intros k U. rewrite A', U. reflexivity.
       * intros k U _. rewrite A', U, Es'. reflexivity.
+  - (* GetFail *) exact (conj N (conj W (conj I X))).
 Qed.
 
 Lemma run_inv u h : inv u (sync_state u h) (run u h).
@@ -423,7 +424,7 @@ Lemma etcd_spec u h : forall k, kget k (etcd (run u h)) = kget k (spec_etcd h).
 Proof.
   induction h as [|e h IH] using rev_ind; intro k; [reflexivity|].
   rewrite run_snoc. unfold spec_etcd. rewrite fold_left_app. fold (spec_etcd h). simpl.
-  destruct e as [k0 v d|k0 d|oa od|oc oa od|items]; simpl.
+  destruct e as [k0 v d|k0 d|oa od|oc oa od|items|]; simpl.
   - destruct (d && u k0).
     + destruct (etcd_iter_put k0 v (nwatch (run u h)) (mkS (kset k0 v (etcd (run u h))) (S (rev (run u h))) (cvals (run u h)) (subs (run u h)) (nwatch (run u h)))) as [-> _].
       simpl. rewrite !kget_kset, IH. reflexivity.
@@ -441,6 +442,7 @@ Proof.
       destruct (hc_fields oa od kv s1) as (E & _); rewrite E end. simpl. apply IH.
   - rewrite (proj1 (etcd_iter_batch _ _ _)). simpl. fold (bapply (etcd (run u h)) items). fold (bapply (spec_etcd h) items).
     rewrite !kget_bapply, IH. reflexivity.
+  - apply IH.
 Qed.
 
 (* ------------------------------------------------------------------ maps whose values are vf *)
@@ -670,7 +672,7 @@ Qed.
 
 Lemma linv_step vf u s e : ev_ok vf e -> linv vf s -> linv vf (step u true s e).
 Proof.
-  intros Ok L0. pose proof L0 as (Te & Tc & F & Z). destruct e as [k v d|k d|oa od|oc oa od|items]; simpl in *.
+  intros Ok L0. pose proof L0 as (Te & Tc & F & Z). destruct e as [k v d|k d|oa od|oc oa od|items|]; simpl in *.
   - set (s1 := mkS (kset k v (etcd s)) (S (rev s)) (cvals s) (subs s) (nwatch s)).
     assert (L1 : typed vf (etcd s1)) by (apply typed_kset; assumption).
     destruct (d && u k).
@@ -733,6 +735,7 @@ Proof.
     destruct P as [P1 P2]. split; [rewrite E1; apply (typed_bapply vf items); assumption|]. split; [assumption|]. split; [assumption|].
     intro H. apply subs_iter_nil in H; [|intro s'; rewrite ab_subs; destruct (subs s'); simpl; split; congruence].
     simpl in H. destruct (Z H) as [Z1 Z2]. subst s1. rewrite Z2. simpl. split; auto.
+  - exact L0.
 Qed.
 
 Lemma run_linv vf u h : consistent vf h -> linv vf (run u h).
@@ -1531,13 +1534,13 @@ Lemma sync_delivered u v evs : Forall (pev_ok v) evs -> forall h, sync_state u (
 Proof.
   induction evs as [|e evs IH] using rev_ind; intros F h; [rewrite app_nil_r; reflexivity|].
   apply Forall_app in F as [F1 F2]. inversion F2; subst. rewrite app_assoc, sync_snoc, IH by assumption.
-  destruct e as [k v' [|]|k [|]| | |]; simpl in *; try contradiction;
+  destruct e as [k v' [|]|k [|]| | | |]; simpl in *; try contradiction;
     rewrite andb_true_r; destruct (sync_state u h); reflexivity.
 Qed.
 
 Lemma consistent_delivered v evs : Forall (pev_ok v) evs -> consistent (fun _ => v) evs.
 Proof.
-  intro F. eapply Forall_impl; [|exact F]. intros e H. destruct e as [k v' [|]|k [|]| | |]; simpl in *; try contradiction; auto.
+  intro F. eapply Forall_impl; [|exact F]. intros e H. destruct e as [k v' [|]|k [|]| | | |]; simpl in *; try contradiction; auto.
 Qed.
 
 (* a subscriber that was there before the publisher started lists the instance iff the publisher is active *)
@@ -1565,4 +1568,13 @@ Proof.
     + intros (_ & U & ->). exists (full_key id (p_lease s)). split; [assumption|]. rewrite Em, Nat.eqb_refl. reflexivity.
   - destruct PG as [_ Em]. split; [intros (k & _ & H); rewrite Em in H; discriminate|intros (H & _); discriminate].
   - destruct PG as [_ Em]. split; [intros (k & _ & H); rewrite Em in H; discriminate|intros (H & _); discriminate].
+Qed.
+
+(* ------------------------------------------------------------------ failed snapshot attempts *)
+Lemma getfail_skip u h1 h2 :
+  run u (h1 ++ GetFail :: h2) = run u (h1 ++ h2) /\
+  sync_state u (h1 ++ GetFail :: h2) = sync_state u (h1 ++ h2) /\
+  spec_etcd (h1 ++ GetFail :: h2) = spec_etcd (h1 ++ h2).
+Proof.
+  unfold run, run_from, sync_state, spec_etcd. rewrite !fold_left_app. simpl. auto.
 Qed.
